@@ -30,6 +30,7 @@ pub fn run_with_timeout(cmd: &mut Command, secs: u64) -> Option<String> {
 }
 
 pub struct RunOpts {
+    pub strace: bool,
     pub root: String,
     pub script: String,
     pub trace: String,
@@ -60,8 +61,18 @@ pub fn run_script(o: &RunOpts) -> Result<usize, String> {
             }
         }
         let kill = ops[to - 1]["op"] == "kill_here";
-        let mut child = Command::new(&exe)
+        let st_file = format!("{}.strace.{}", o.trace, from);
+        let mut cmd = if o.strace {
+            // syscall level evidence for C03.sync_calls: which file got fsync/fdatasync during which call
+            let mut c = Command::new("strace");
+            c.args(["-f", "-y", "-e", "trace=fsync,fdatasync,access", "-o", &st_file]).arg(&exe);
+            c
+        } else {
+            Command::new(&exe)
+        };
+        let mut child = cmd
             .args(["worker", &o.root, &o.script, &from.to_string(), &to.to_string(), &o.max_slots.to_string()])
+            .env(if o.strace { "ABYVERIF_STRACE" } else { "ABYVERIF_NOSTRACE" }, "1")
             .stdout(Stdio::piped())
             .stderr(Stdio::piped())
             .spawn()
@@ -156,7 +167,60 @@ pub fn run_script(o: &RunOpts) -> Result<usize, String> {
         from = to;
     }
     trace.flush().map_err(|e| format!("{e}"))?;
+    drop(trace);
+    if o.strace {
+        attach_syscalls(&o.trace)?;
+    }
     Ok(nev)
+}
+
+/// parse the strace logs of all segments: the worker brackets every flush/sync call with
+/// access("/abyverif-op-<i>") markers; the syncs seen between the markers are attached to event i as
+/// "sys": [[file, "sync_all"|"sync_data"], ...]
+fn attach_syscalls(trace_path: &str) -> Result<(), String> {
+    use std::collections::HashMap;
+    let dir = std::path::Path::new(trace_path).parent().unwrap_or(std::path::Path::new("."));
+    let base = std::path::Path::new(trace_path).file_name().unwrap().to_string_lossy().to_string();
+    let mut sys: HashMap<i64, Vec<Value>> = HashMap::new();
+    for e in std::fs::read_dir(dir).map_err(|e| format!("{e}"))?.flatten() {
+        let f = e.file_name().to_string_lossy().to_string();
+        if !f.starts_with(&format!("{base}.strace.")) { continue; }
+        let text = std::fs::read_to_string(e.path()).unwrap_or_default();
+        let mut cur: Option<i64> = None;
+        for line in text.lines() {
+            if let Some(p) = line.find("access(\"/abyverif-op-") {
+                let rest = &line[p + 21..];
+                let num: String = rest.chars().take_while(|c| c.is_ascii_digit()).collect();
+                let begin = rest[num.len()..].starts_with("-begin");
+                cur = if begin { num.parse().ok() } else { None };
+                if let Some(i) = cur { sys.entry(i).or_default(); }
+            } else if let Some(i) = cur {
+                for (call, op) in [("fsync(", "sync_all"), ("fdatasync(", "sync_data")] {
+                    if let Some(p) = line.find(call) {
+                        if line[..p].ends_with(' ') || p == 0 || line[..p].ends_with('>') {
+                            let arg = &line[p + call.len()..];
+                            let file = if arg.contains(".val>") { "val" } else if arg.contains(".key>") { "key" } else if arg.contains(".htx>") { "htx" } else { "other" };
+                            if line.contains("= 0") { sys.get_mut(&i).unwrap().push(json!([file, op])); }
+                        }
+                    }
+                }
+            }
+        }
+        let _ = std::fs::remove_file(e.path());
+    }
+    let text = std::fs::read_to_string(trace_path).map_err(|e| format!("{e}"))?;
+    let mut out = String::with_capacity(text.len() + 1024);
+    for l in text.lines() {
+        let mut v: Value = serde_json::from_str(l).map_err(|e| format!("{e}"))?;
+        if let Some(i) = v.get("i").and_then(|i| i.as_i64()) {
+            if let Some(s) = sys.get(&i) {
+                if v.get("io").is_some() { v["sys"] = Value::Array(s.clone()); }
+            }
+        }
+        out.push_str(&v.to_string());
+        out.push('\n');
+    }
+    std::fs::write(trace_path, out).map_err(|e| format!("{e}"))
 }
 
 /// worker child: executes ops[from..to], one event line per op on stdout
@@ -177,8 +241,19 @@ pub fn worker(root: &str, script: &str, from: usize, to: usize, max_slots: usize
             }
         }
     }
+    let strace = std::env::var("ABYVERIF_STRACE").is_ok();
     for i in from..to {
-        match ctx.exec(i, &ops[i]) {
+        let syncop = matches!(ops[i]["op"].as_str().unwrap_or(""), "flush" | "sync_all" | "sync_data" | "db_sync_all" | "db_sync_data");
+        if strace && syncop {
+            let p = std::ffi::CString::new(format!("/abyverif-op-{i}-begin")).unwrap();
+            unsafe { libc::access(p.as_ptr(), libc::F_OK); }
+        }
+        let r = ctx.exec(i, &ops[i]);
+        if strace && syncop {
+            let p = std::ffi::CString::new(format!("/abyverif-op-{i}-end")).unwrap();
+            unsafe { libc::access(p.as_ptr(), libc::F_OK); }
+        }
+        match r {
             Ok(ev) => {
                 let stop = ev["outcome"] == "panic";
                 let _ = writeln!(out, "{ev}");
